@@ -641,3 +641,14 @@ Qed.
 Lemma mem_write_keys c m nbits a v :
   keys_in_range c m -> keys_in_range c (fst (mem_write c m nbits a v)).
 Proof. apply write_mult_keys. Qed.
+
+Lemma rv_word_table_lem m : (forall k, In k (mkeys m) -> 16384 <= k < 4294967296) ->
+  exists rows, mem_repr rv_memcfg m 32 = Ok rows /\
+  (forall a, In a (map fst rows) <-> exists k, In k (mkeys m) /\ a = k - k mod 4) /\
+  StronglySorted Z.lt (map fst rows) /\
+  (forall a v, In (a, v) rows -> mem_read rv_memcfg m 32 a = Ok v).
+Proof.
+  intros Hk.
+  destruct (mem_table_total_lem rv_memcfg m 32 (rv_aligned 32 ltac:(tauto)) Hk) as [rows Hr].
+  exists rows. split; [exact Hr|]. exact (mem_table_exact_lem rv_memcfg m 32 rows Hr).
+Qed.
